@@ -36,6 +36,8 @@ KF_PREPEPTIDE = "KF-C10-prepeptide-location-parts"
 KF_FUNCTION = "KF-C10-gene-function-colon"
 KF_PRE_SEQUENCE = "KF-C10-prepeptide-long-sequence"
 KF_PRECISION = "KF-C10-number-precision"
+KF_SMILES = "KF-C10-candidate-smiles-wrapped"
+KF_SIDE_TOOL = "KF-C10-sideloaded-tool-name-recursion"
 WORKERS = max(2, min(8, (os.cpu_count() or 4) // 2))
 
 
@@ -116,6 +118,10 @@ def attr_dump(obj: Any, depth: int = 0) -> Any:
     for name in _slots(obj):
         if name in SKIP_SLOTS or (depth == 0 and name in BASE_SLOTS):
             continue
+        if type(obj).__name__ == "GOQualifier" and name in ("ids", "descriptions"):
+            # the keys and values of `go_entries` again, in the order the terms were added (a re-read qualifier has
+            # them in the order of the ids): the mapping itself is compared
+            continue
         try:
             value = getattr(obj, name)
         except AttributeError:
@@ -153,6 +159,28 @@ def dump_feat(feature: Any, opaque: bool = False) -> Dict[str, Any]:
     return {"loc": loc_json(feature.location), "type": feature.type,
             "notes": list(feature.notes), "quals": qlist(quals),
             "byAS": bool(feature.created_by_antismash), "codon": feature._original_codon_start}
+
+
+def t2pks_quals(t2pks: Any) -> List[List[Any]]:
+    """the qualifiers a type II PKS annotation stands for, rendered here from its attributes"""
+    if t2pks is None:
+        return []
+    out = [["t2pks_starter_units", list(t2pks.starter_units)]]
+    if t2pks.malonyl_elongations:
+        out.append(["t2pks_malonyl_elongations", list(t2pks.malonyl_elongations)])
+        out.append(["t2pks_molecular_weights", [f"{combo} (Da): {weight:.3f}" for combo, weight in t2pks.molecular_weights.items()]])
+    if t2pks.product_classes:
+        out.append(["t2pks_product_classes", list(t2pks.product_classes)])
+    return out
+
+
+def dump_proto_feat(proto: Any) -> Dict[str, Any]:
+    """to the record model the type II PKS annotation of a protocluster is part of its free qualifiers"""
+    out = dump_feat(proto)
+    if proto.t2pks is not None:
+        # a re-read protocluster holds its leftovers in the (sorted) order of the written feature
+        out["quals"] = sorted(out["quals"] + t2pks_quals(proto.t2pks), key=lambda q: q[0])
+    return out
 
 
 def dump_meta(rec: Any) -> Dict[str, Any]:
@@ -215,7 +243,7 @@ def dump_record(rec: Any) -> Dict[str, Any]:
         "others": [dump_feat(f, opaque=f.type in OPAQUE_TYPES) for f in plain],
         "cdss": [dump_feat(f, opaque=True) for f in rec.get_cds_features()],
         "subs": [{"feat": dump_feat(s), "tool": s.tool, "label": s.label, "side": dump_side(s)} for s in subs],
-        "protos": [{"feat": dump_feat(p), "core": common.location_json(p.core_location), "tool": p.tool,
+        "protos": [{"feat": dump_proto_feat(p), "core": common.location_json(p.core_location), "tool": p.tool,
                     "product": p.product, "cutoff": int(p.cutoff), "nbhd": int(p.neighbourhood_range),
                     "rule": p.detection_rule, "category": p.product_category, "side": dump_side(p)} for p in protos],
         "cands": [{"feat": dump_feat(c), "kind": str(c.kind), "children": [index[id(p)] for p in c.protoclusters],
@@ -433,6 +461,11 @@ def build_record(case: Dict[str, Any]) -> Any:
             proto = SideloadedProtocluster(core, loc, p["tool"], p["product"], neighbourhood_range=p["nbhd"],
                                            extra_qualifiers={k: list(v) for k, v in p["side"]})
         proto.notes.extend(p.get("notes", []))
+        if p.get("t2pks"):
+            from antismash.common.secmet.qualifiers.t2pks import T2PKSQualifier
+            t2 = p["t2pks"]
+            proto.t2pks = T2PKSQualifier(list(t2["starters"]), list(t2["elongations"]), list(t2["classes"]),
+                                         {k: v for k, v in t2["weights"]})
         protos.append(proto)
         rec.add_protocluster(proto)
     cands = case.get("cands", "auto")
@@ -517,7 +550,14 @@ class C10(Property):
         (S + "qualifiers/gene_functions.py", "_GeneFunctionAnnotation.from_string"),
         (S + "qualifiers/nrps_pks.py", "NRPSPKSQualifier.add_from_qualifier"),
         (S + "qualifiers/secmet.py", "SecMetQualifier.from_biopython"),
-        (S + "qualifiers/go.py", "GOQualifier.from_biopython"),
+        (S + "qualifiers/go.py", "GOQualifier.from_biopython"), (S + "qualifiers/go.py", "GOQualifier.to_biopython"),
+        (S + "qualifiers/t2pks.py", "T2PKSQualifier.__init__"), (S + "qualifiers/t2pks.py", "T2PKSQualifier.to_biopython_qualifiers"),
+        (S + "qualifiers/t2pks.py", "T2PKSQualifier.from_biopython_qualifiers"),
+        (S + "qualifiers/secmet.py", "_parse_format"), (S + "qualifiers/secmet.py", "SecMetQualifier.Domain.from_string"),
+        (S + "qualifiers/gene_functions.py", "GeneFunctionAnnotations.add"),
+        (S + "qualifiers/gene_functions.py", "GeneFunctionAnnotations.add_from_qualifier"),
+        (S + "qualifiers/gene_functions.py", "GeneFunctionAnnotations.get_classification"),
+        (S + "features/domain.py", "generate_protein_location_from_qualifiers"),
         (S + "locations.py", "build_location_from_others")]
     RULE = ("generated records built through the public API: input genes/CDS on both strands (single, multi-exon, "
             "origin-spanning, codon_start 1-3, equal sort keys), misc/source features with notes and qualifiers, gene "
@@ -693,7 +733,7 @@ class C10(Property):
                        "n": len(case["domains"]),
                        # a hit score of exactly 0.0 and negative scores are legal (lenient e-value cut-offs)
                        "score": rng.choice([None, 0.0, 0.0, -1.2, 5.3, 250.75]),
-                       "evalue": rng.choice([None, 0.0, 0.12, 1.2e-05, 3.4e-30, 3.4e-30, 1.2345e-07]),
+                       "evalue": rng.choice([None, 0.0, 0.12, 1.2e-05, 3.4e-30] * 4 + [1.2345e-07]),
                        "label": rng.choice([None, "C1_example", "nrpspksdomains_x_PKS_KS.1"]),
                        "database": rng.choice([None, "abmotifs", "Pfam-A.hmm 31.0"]),
                        "detection": rng.choice([None, "hmmscan"]),
@@ -702,9 +742,10 @@ class C10(Property):
                 if dom["kind"] == "pfam":
                     dom["version"] = rng.choice([None, 3, 14])
                     if rng.random() < 0.4:
-                        dom["go"] = sorted(rng.sample([["GO:0004871", "signal transducer activity"],
-                                                       ["GO:0007165", "signal transduction"],
-                                                       ["GO:0016020", "membrane: integral"]], rng.choice([1, 2])))
+                        # in the order of the pfam2go mapping, which is not the order of the ids
+                        dom["go"] = rng.sample([["GO:0009055", "electron transfer activity"], ["GO:0016491", "oxidoreductase activity"],
+                                                ["GO:0016020", "membrane: integral"], ["GO:0004871", "signal transducer activity"],
+                                                ["GO:0007165", "signal transduction"]], rng.choice([1, 2, 2, 3]))
                 case["domains"].append(dom)
                 mine.append(dom)
             asdoms = [d for d in mine if d["kind"] == "asdom"]
@@ -789,8 +830,12 @@ class C10(Property):
         quals: List[List[Any]] = [["locus_tag", [name]]]
         if rng.random() < 0.3:
             quals.append(["gene", ["g" + name]])
+        if rng.random() < 0.1:
+            quals.append(["pseudo", [""]])             # a valueless qualifier as the GenBank parser delivers it
         case["input"].append({"type": "gene", "loc": loc, "quals": [list(q) for q in quals]})
-        cds_quals = [list(q) for q in quals]
+        cds_quals = [list(q) for q in quals if q[0] != "pseudo"]
+        if rng.random() < 0.1:
+            cds_quals.append(["ribosomal_slippage", [""]])
         codon = rng.choice([None, None, "1", "2", "3"]) if codon_ok else rng.choice([None, "1"])
         if codon:
             cds_quals.append(["codon_start", [codon]])
@@ -836,12 +881,24 @@ class C10(Property):
                "category": rng.choice(["PKS", "other", "RiPP", ""]), "side": None, "notes": []}
         if rng.random() < 0.12:
             out["side"] = self._gen_side(rng)
-            out["tool"] = rng.choice(["sidetool", "my tool: v2"])
+            out["tool"] = rng.choice(["sidetool", "my tool: v2"] * 8 + ["externally annotated clusters v2"])
             out["category"] = "other"
             out["cutoff"] = 0
             out["rule"] = "from external annotation"
         if rng.random() < 0.1:
             out["notes"] = ["area note"]
+        if out["side"] is None and rng.random() < 0.3:
+            # type II PKS analysis annotation: starter units always; elongations with their weights, product classes: each or not
+            elong = rng.choice([[], [], ["7 (Score: 120.5; E-value: 1.2e-30)"], ["8|9 (Score: 99.0; E-value: 3e-20)", "7 (Score: 1.0; E-value: 0.5)"]])
+            weights = [] if not elong else rng.choice([[["acetyl-CoA_7", 342.347]], [["acetyl-CoA_8", 384.384], ["malonamyl-CoA_9", 455.5]],
+                                                      [["acetyl-CoA_7", 300.0], ["acetyl-CoA_8", 342.25]]])
+            out["t2pks"] = {"starters": rng.choice([["acetyl-CoA (Score: 0.0; E-value: 0.0)"],
+                                                    ["malonamyl-CoA (Score: 530.1; E-value: 1.5e-160)", "acetyl-CoA (Score: 0.0; E-value: 0.0)"]]),
+                            "elongations": elong, "weights": weights,
+                            "classes": rng.choice([[], ["angucycline"], ["angucycline", "anthracycline"], ["benzoisochromanequinone"]])}
+            if rng.random() < 0.5:
+                out["product"] = "T2PKS"
+                out["rule"] = "cds(T2PKS and x)"
         return out
 
     def _gen_side(self, rng: random.Random) -> List[List[Any]]:
@@ -858,7 +915,7 @@ class C10(Property):
                "side": None}
         if rng.random() < 0.15:
             out["side"] = self._gen_side(rng)
-            out["tool"] = "sidetool"
+            out["tool"] = rng.choice(["sidetool"] * 12 + ["externally annotated regions v2"])
         return out
 
     def _gen_cands(self, rng: random.Random, protos: List[Dict[str, Any]]) -> List[Dict[str, Any]]:
@@ -869,7 +926,7 @@ class C10(Property):
             kind = "single" if len(children) == 1 else rng.choice(["interleaved", "neighbouring", "chemical_hybrid"])
             cand: Dict[str, Any] = {"kind": kind, "children": children}
             if rng.random() < 0.3:
-                cand["smiles"] = "CC(=O)O"
+                cand["smiles"] = rng.choice(["CC(=O)O", "CC(=O)O", "C" * 30 + "(=O)" * 20 + "N" * 40])
             if rng.random() < 0.3:
                 cand["polymer"] = "(mal) + (ccmal)"
             out.append(cand)
@@ -879,12 +936,13 @@ class C10(Property):
         return out
 
     def cases(self, rng: random.Random, tier: str, deep: bool) -> Iterator[Dict[str, Any]]:
-        count = 16000 if deep else 1800
+        count = 16000 if deep else 1500
         generated = (self.gen_layout(rng, tier) for _ in range(count))
         yield from self._precomputed(generated)
         yield from self.prepeptide_cases(rng, deep)
         yield from self.qualtext_cases(rng, deep)
         yield from self.dom_cases(rng, deep)
+        yield from self.annot_cases(rng, deep)
         if deep:
             yield from self._precomputed(self.small_scope())
         self.extra_coverage = {"records_generated": count, "worker_processes": WORKERS}
@@ -924,7 +982,7 @@ class C10(Property):
     # ---- the text inside the class-specific qualifiers (ASV/Model/SerialQual.lean)
     FORMATS = ["{} ({}) {}: {}", "{} ({}) {}", "{} (E-value: {}, bitscore: {}, seeds: {}, tool: {})",
                "Domain: {} ({:d}-{:d}). E-value: {}. Score: {}. Matches aSDomain: {}", "type: {}",
-               "{}: {}", "{} {}", "{}({:d})", "{:d}-{:d}", "a {} b", "{}.{}. {}", "{}"]
+               "{} (Da): {:.3f}", "{}: {}", "{} {}", "{}({:d})", "{:d}-{:d}", "a {} b", "{}.{}. {}", "{}"]
     FUNCTIONS = ["other", "biosynthetic", "biosynthetic-additional", "transport", "regulatory", "resistance"]
 
     def qualtext_cases(self, rng: random.Random, deep: bool) -> Iterator[Dict[str, Any]]:
@@ -1259,6 +1317,154 @@ class C10(Property):
         return Judgement(not problems, not bad, in_scope=bool(drv["scope"]) and exact, known=known, nontrivial=True,
                          tags=tuple(tags), detail="; ".join(bad + problems)[:1500])
 
+    # ---- analysis annotations with qualifiers of their own: type II PKS (protocluster), Pfam identifier / GO terms
+    def annot_cases(self, rng: random.Random, deep: bool) -> Iterator[Dict[str, Any]]:
+        terms = [["GO:0009055", "electron transfer activity"], ["GO:0016491", "oxidoreductase activity"], ["GO:0016020", "membrane"],
+                 ["GO:0004871", "signal transducer activity: x"], ["GO:0007165", "signal transduction"], ["X:1", "a: b"]]
+        for i in range(3000 if deep else 400):
+            if i % 2 == 0:
+                elong = rng.choice([[], [], ["7 (Score: 120.5; E-value: 1.2e-30)"], ["8|9 (Score: 99.0; E-value: 3e-20)", "7 (Score: 1.0; E-value: 0.5)"]])
+                weights = [] if not elong else rng.choice([[["acetyl-CoA_7", 342.347]], [["acetyl-CoA_8", 384.384], ["malonamyl-CoA_9", 455.5]],
+                                                          [["a b_7", 300.0]], [["x(y)_1", 1.0], ["acetyl-CoA_8", 342.25]],
+                                                          [["acetyl-CoA_7", 342.34721]]])
+                case = {"f": "annot", "kind": "t2pks", "starters": rng.choice([["acetyl-CoA (Score: 0.0; E-value: 0.0)"]] * 5 + [["s1", "s2"]] * 4 + [[]]),
+                        "elongations": elong, "weights": weights,
+                        "classes": rng.choice([[], ["angucycline"], ["angucycline", "anthracycline"]])}
+                if rng.random() < 0.08:
+                    case["weights"] = [] if case["weights"] else [["lonely_1", 1.0]]      # refused by the constructor
+                if i % 6 == 4:
+                    key = rng.choice(["t2pks_starter_units", "t2pks_malonyl_elongations", "t2pks_molecular_weights", "t2pks_product_classes"])
+                    case["mutate"] = rng.choice([["del", key], ["set", key, []], ["set", key, ["x"]], ["set", key, ["a (Da): 1.000", "a (Da): 2.000"]],
+                                                 ["set", key, ["a(Da):1"]], ["set", key, ["(Da): 1"]]])
+            else:
+                case = {"f": "annot", "kind": "pfam", "description": rng.choice(["a description", "Cytochrome b(C-terminal)/b6/petD", "x"]),
+                        "identifier": rng.choice(["PF00032", "PF00001", "PF12345"]), "version": rng.choice([None, None, 1, 14, 20]),
+                        "go": None if rng.random() < 0.3 else rng.sample(terms, rng.choice([1, 2, 2, 3, 4]))}
+                if i % 6 == 5:
+                    key = rng.choice(["description", "db_xref", "gene_ontologies"])
+                    case["mutate"] = rng.choice([["del", key], ["set", key, []], ["set", key, [""]], ["set", key, ["PF00001.x"]],
+                                                 ["set", key, ["PF1"]], ["set", key, ["GI:1", "PF00001"]], ["set", key, ["no separator"]],
+                                                 ["set", key, ["PF00002.3", "GO:1", "GO:0"]], ["set", key, ["a: b", "a: c", "b: d"]]])
+            yield case
+
+    @staticmethod
+    def observe_annot(case: Dict[str, Any]) -> Dict[str, Any]:
+        def damage(quals: Dict[str, List[str]]) -> None:
+            if case["mutate"][0] == "del":
+                quals.pop(case["mutate"][1], None)
+            else:
+                quals[case["mutate"][1]] = list(case["mutate"][2])
+        if case["kind"] == "t2pks":
+            from antismash.common.secmet.qualifiers.t2pks import T2PKSQualifier
+
+            def dump(t2: Any) -> Any:
+                if t2 is None:
+                    return None
+                return {"starters": list(t2.starter_units), "elongations": list(t2.malonyl_elongations), "classes": list(t2.product_classes),
+                        "weights": [[k, f"{v:.3f}"] for k, v in t2.molecular_weights.items()], "@weights": dict(t2.molecular_weights)}
+            try:
+                t2 = T2PKSQualifier(list(case["starters"]), list(case["elongations"]), list(case["classes"]),
+                                    {k: v for k, v in case["weights"]})
+            except ValueError:
+                return {"err": "value-error"}
+            quals = {k: list(v) for k, v in t2.to_biopython_qualifiers().items()}
+            out: Dict[str, Any] = {"state": dump(t2), "quals": qlist(quals)}
+            if case.get("mutate"):
+                damage(quals)
+                out["mutated"] = qlist(quals)
+            try:
+                back = T2PKSQualifier.from_biopython_qualifiers(quals)
+                out["back"] = {"ok": {"t2": dump(back), "left": qlist(quals)}}
+            except Exception as exc:  # pylint: disable=broad-except
+                out["back"] = {"err": err_kind(exc)}
+            return out
+        from Bio.SeqFeature import SeqFeature
+        from antismash.common.secmet.features import PFAMDomain
+        from antismash.common.secmet.locations import FeatureLocation
+        from antismash.common.secmet.qualifiers import GOQualifier
+        keys = ("description", "db_xref", "gene_ontologies")
+
+        def dump_p(dom: Any) -> Dict[str, Any]:
+            return {"description": dom.description, "identifier": dom.identifier, "version": dom.version,
+                    "go": None if dom.gene_ontologies is None else [[k, v] for k, v in dom.gene_ontologies.go_entries.items()]}
+
+        def three(bio: Any) -> List[List[Any]]:
+            return [[k, list(bio.qualifiers[k])] for k in keys if k in bio.qualifiers]
+        full = case["identifier"] + ("" if case["version"] is None else f".{case['version']}")
+        dom = PFAMDomain(FeatureLocation(0, 30, 1), case["description"], FeatureLocation(0, 10), full, "pfamtool", "locus")
+        dom.domain_id = "pfam_locus_1"
+        if case["go"] is not None:
+            dom.gene_ontologies = GOQualifier({k: v for k, v in case["go"]})
+        bio = dom.to_biopython()[0]
+        out = {"state": dump_p(dom), "quals": three(bio)}
+        quals = {k: list(v) for k, v in bio.qualifiers.items()}
+        if case.get("mutate"):
+            damage(quals)
+            out["mutated"] = [[k, list(quals[k])] for k in keys if k in quals]
+        try:
+            back = PFAMDomain.from_biopython(SeqFeature(bio.location, type=bio.type, qualifiers=quals))
+            out["back"] = {"ok": {"p": dump_p(back), "xref": list(back._qualifiers.get("db_xref", []))}}
+            out["again"] = {"ok": three(back.to_biopython()[0])}
+        except Exception as exc:  # pylint: disable=broad-except
+            out["back"] = {"err": err_kind(exc)}
+        return out
+
+    def judge_annot(self, case: Dict[str, Any], obs: Dict[str, Any], drv: Dict[str, Any]) -> Judgement:
+        tags = ["annot:" + case["kind"]]
+        if "err" in obs:
+            return Judgement(True, True, in_scope=False, tags=tuple(tags + ["refused-by-constructor"]))
+
+        def clean(x: Any) -> Any:
+            if isinstance(x, dict):
+                return {k: clean(v) for k, v in x.items() if not k.startswith("@")}
+            if isinstance(x, list):
+                return [clean(v) for v in x]
+            return x
+        real_back = clean(obs["back"])
+        if "mutated" in obs:
+            tags.append("damaged:" + ("accepted" if "ok" in obs["back"] else obs["back"]["err"]))
+            if real_back.get("err", "").startswith(("value-error:", "other:")):
+                return Judgement(True, True, in_scope=False, tags=tuple(tags + ["number-text"]))
+            model_back = drv["back"]
+            if case["kind"] == "t2pks" and "ok" in model_back and model_back["ok"]["t2"]:
+                # the model keeps the weight's text, the implementation's number is shown with three decimals
+                def shown(text: str) -> str:
+                    try:
+                        return f"{float(text):.3f}"
+                    except ValueError:
+                        return text
+                t2 = model_back["ok"]["t2"]
+                model_back = {"ok": dict(model_back["ok"], t2=dict(t2, weights=[[k, shown(v)] for k, v in t2["weights"]]))}
+            corr = model_back == real_back
+            return Judgement(corr, True, in_scope=False, nontrivial=True, tags=tuple(tags),
+                             detail="" if corr else f"reading {obs['mutated']}: model {drv['back']} vs implementation {real_back}")
+        problems = [f"{k}: model {drv.get(k)} vs implementation {v}" for k, v in (("quals", obs["quals"]), ("back", real_back))
+                    if drv.get(k) != v]
+        if "again" in obs and drv.get("again") != obs["again"]:
+            problems.append(f"second write: model {drv.get('again')} vs implementation {obs['again']}")
+        bad = []
+        known = None
+        if "err" in obs["back"]:
+            bad.append(f"reading back raised {obs['back']['err']}")
+        elif case["kind"] == "t2pks":
+            before, after = obs["state"], obs["back"]["ok"]["t2"]
+            if after is None or {k: v for k, v in before.items() if k != "weights"} != {k: v for k, v in after.items() if k != "weights"}:
+                bad.append(f"annotation {before} came back as {after}")
+                if after is not None and clean(before) == clean(after) and \
+                        {k: float(f"{v:.3f}") for k, v in before["@weights"].items()} == after["@weights"]:
+                    known = KF_PRECISION
+            if obs["back"]["ok"]["left"]:
+                bad.append(f"qualifiers left over: {obs['back']['ok']['left']}")
+        else:
+            before, after = obs["state"], obs["back"]["ok"]["p"]
+            same_terms = (before["go"] is None) == (after["go"] is None) and sorted(before["go"] or []) == sorted(after["go"] or [])
+            if {k: v for k, v in before.items() if k != "go"} != {k: v for k, v in after.items() if k != "go"} or not same_terms:
+                bad.append(f"Pfam data {before} came back as {after}")
+            if obs["again"]["ok"] != obs["quals"]:
+                bad.append(f"second write {obs['again']['ok']} differs from the first {obs['quals']}")
+        return Judgement(not problems, not bad, in_scope=bool(drv.get("scope")) and known is None, known=known, nontrivial=True,
+                         tags=tuple(tags), detail="; ".join(bad + problems)[:1500])
+
     def _precomputed(self, cases: Iterator[Dict[str, Any]]) -> Iterator[Dict[str, Any]]:
         """runs the real round trips of a chunk of cases in worker processes (the implementation side is
         pure per case); `run_impl` then finds the observation in the cache"""
@@ -1313,6 +1519,8 @@ class C10(Property):
             return self.observe_qualtext(case)
         if case["f"] == "dom":
             return self.observe_dom(case)
+        if case["f"] == "annot":
+            return self.observe_annot(case)
         try:
             rec = build_record(case)
         except Exception as exc:  # pylint: disable=broad-except
@@ -1369,6 +1577,14 @@ class C10(Property):
     def driver_line(self, case: Dict[str, Any], obs: Dict[str, Any]) -> Optional[Dict[str, Any]]:
         if case["f"] == "prepeptide":
             return dict(case, re=obs.get("re"))
+        if case["f"] == "annot":
+            if "state" not in obs:
+                return None
+            if "mutated" in obs:
+                return {"f": "annot", "kind": case["kind"], "quals": obs["mutated"]}
+            if case["kind"] == "t2pks":
+                return dict({k: v for k, v in obs["state"].items() if not k.startswith("@")}, f="annot", kind="t2pks")
+            return dict(obs["state"], f="annot", kind="pfam")
         if case["f"] == "dom":
             if "state" not in obs:
                 return None
@@ -1385,6 +1601,9 @@ class C10(Property):
             return None
         line = {"f": "record", "rec": for_model(obs["state"]), "re_gb": for_model(obs["re_gb"]),
                 "re_json": for_model(obs["re_json"])}
+        if any(" " in (c["smiles"] or "") for c in obs["re_gb"]["cands"]):
+            line["re_gb_smiles"] = dict(line["re_gb"], cands=[dict(c, smiles=c["smiles"].replace(" ", "") if c["smiles"] else c["smiles"])
+                                                              for c in line["re_gb"]["cands"]])
         if obs["state"]["pre_locs"]:
             # prepeptides are judged on their attribute dumps (where the recorded finding
             # KF-C10-prepeptide-location-parts can set the part structure of the location aside), not by the Lean view
@@ -1393,6 +1612,8 @@ class C10(Property):
             line["spec_rec"] = without(line["rec"])
             line["re_gb"] = without(line["re_gb"])
             line["re_json"] = without(line["re_json"])
+            if "re_gb_smiles" in line:
+                line["re_gb_smiles"] = without(line["re_gb_smiles"])
         return line
 
     def judge_prepeptide(self, case: Dict[str, Any], obs: Dict[str, Any], drv: Dict[str, Any]) -> Judgement:
@@ -1443,6 +1664,8 @@ class C10(Property):
         if case["f"] == "qualtext":
             assert drv is not None
             return self.judge_qualtext(case, obs, drv)
+        if case["f"] == "annot":
+            return self.judge_annot(case, obs, drv or {})
         if case["f"] == "dom":
             if drv is None:
                 return self.judge_dom(case, obs, {})
@@ -1450,7 +1673,12 @@ class C10(Property):
         if "skip" in obs:
             return Judgement(True, True, in_scope=False, tags=("skipped:" + obs["skip"],))
         if "err" in obs:
-            return Judgement(True, False, tags=("err:" + obs["err"],),
+            known = None
+            named = any(a.get("side") is not None and a["tool"].startswith("externally annotated")
+                        for a in case.get("subs", []) + case.get("protos", []))
+            if named and obs["err"] in ("RuntimeError", "RecursionError") and "recursion" in str(obs.get("msg")):
+                known = KF_SIDE_TOOL
+            return Judgement(True, False, known=known, tags=("err:" + obs["err"],),
                              detail=f"a round trip raised {obs['err']}: {obs.get('msg')} {obs.get('trace')}")
         assert drv is not None
         if "err" in drv and "w1" not in drv:
@@ -1530,13 +1758,23 @@ class C10(Property):
         if not spec_ok and not (drv["swo"] and drv["sorted"]):
             # the recorded class: the feature ordering is inconsistent on this record (see known_findings.json)
             known = KF_ORDER
-        elif not spec_ok and (not other_bad or other_bad == ["text_fixed"]):
-            known = self._known_class(case, obs)
+        elif not spec_ok:
+            rest = list(other_bad)
+            # GenBank path only: with the spaces taken out of the SMILES strings the re-read areas are the original ones
+            smiles = "spec_gb" in rest and drv.get("spec_gb_smiles") is True and \
+                any(len(c.get("smiles") or "") > 50 for c in (case["cands"] if case.get("cands") != "auto" else []))
+            if smiles:
+                rest.remove("spec_gb")
+            if set(rest) <= {"text_fixed"}:
+                if attr_bad:
+                    known = self._known_class(case, obs, text_excused=smiles)
+                elif smiles:
+                    known = KF_SMILES
         return Judgement(corr, spec_ok, in_scope=scope, known=known, nontrivial=nontrivial, tags=tuple(sorted(set(tags))),
                          detail=detail[:1500])
 
     @staticmethod
-    def _known_class(case: Dict[str, Any], obs: Dict[str, Any]) -> Optional[str]:
+    def _known_class(case: Dict[str, Any], obs: Dict[str, Any], text_excused: bool = False) -> Optional[str]:
         """the recorded attribute-level findings (known_findings.json); a case belongs to one of them only when,
         apart from exactly what the finding describes, no attribute of any feature differs"""
         has_pre = bool(case.get("prepeptides"))
@@ -1587,11 +1825,11 @@ class C10(Property):
                    ((False, False, False, True), lossy(obs["state"]["attrs"]), KF_PRECISION)]
         applicable = [c for c in classes if c[1]]
         for flags, _, kf in applicable:
-            if same(flags) and (obs["text_fixed"] or flags[2]):
+            if same(flags) and (obs["text_fixed"] or flags[2] or text_excused):
                 return kf
         if len(applicable) > 1:
             union = tuple(any(c[0][i] for c in applicable) for i in range(4))
-            if same(union) and (obs["text_fixed"] or union[2]):   # several recorded findings at once
+            if same(union) and (obs["text_fixed"] or union[2] or text_excused):   # several recorded findings at once
                 return applicable[0][2]
         return None
 
